@@ -15,7 +15,7 @@ SHARDS = {"quick": 12, "thorough": 16}
 WATCHDOG = {"quick": 1500, "thorough": 3300}
 REQUIRED_CLASSES = {t: ["elements:hexahedra", "elements:tetrahedra", "elements:mixed", "mixed:lowest_id_is_tetrahedron",
                         "mixed:lowest_id_is_hexahedron", "ids:contiguous_from_1", "ids:permuted", "ids:gaps", "ids:from_0",
-                        "ids:large", "rows:shuffled", "positions:perturbed", "hotspot:several_components", "hotspot:element_nodal_values", "hotspot:tie_in_peaks_possible",
+                        "ids:large", "rows:shuffled", "positions:perturbed", "hotspot:several_components", "hotspot:element_nodal_values", "coordinates:float32", "coordinates:int32", "coordinates:uint16", "hotspot:tie_in_peaks_possible",
                         "hotspot:threshold_exactly_met"]
                     for t in ("quick", "thorough")}
 REQUIRED_MONITORS = ["gradient(lstsq):exact_on_linear_field", "gradient_3D:exact_on_linear_field", "mapping:same_points_identity",
@@ -55,7 +55,7 @@ def generate(ctx):
     for i in range(n):
         yield {"cells": [int(v) for v in rng.integers(2, 5 if i % 3 else 4, size=3)], "elements": ["hex", "tet", "hex", "mixed"][i % 4],
                "ids": ["contiguous", "permuted", "gaps", "from_0", "large"][i % 5], "rseed": int(rng.integers(0, 2**31)),
-               "surface": bool(i % 2 == 0 and i % 4 == 0)}
+               "surface": bool(i % 2 == 0 and i % 4 == 0), "coord_dtype": ["float64", "float64", "float32", "int32", "float64", "uint16", "int64"][i % 7]}
 
 
 def make_mesh(case, rng):
@@ -68,6 +68,10 @@ def make_mesh(case, rng):
         p = np.array([i, j, k], dtype=float) * spacing + rng.uniform(-0.2, 0.2, 3) * spacing
         coords.append(p)
     coords = np.array(coords)
+    cd = case.get("coord_dtype", "float64")
+    if cd != "float64":
+        # coordinates on a fine integer raster (e.g. 1/100 mm, voxel indices), to be stored in that integer or float32 type
+        coords = np.round(coords * 100.0) + 100.0
     N = len(coords)
     kind = case["ids"]
     if kind == "contiguous":
@@ -98,6 +102,8 @@ def make_mesh(case, rng):
         for nn in nodes:
             rows.append((int(e), int(nid[nn]), *coords[nn]))
     df = pd.DataFrame(rows, columns=["element_id", "node_id", "x", "y", "z"]).set_index(["element_id", "node_id"])
+    if cd != "float64":
+        df[["x", "y", "z"]] = df[["x", "y", "z"]].astype(cd)
     boundary = set()
     for (i, j, k), idx in grid.items():
         if i in (0, nx) or j in (0, ny) or k in (0, nz):
@@ -117,6 +123,7 @@ def run_case(case, ctx):
                     else "mixed:lowest_id_is_hexahedron")
     ctx.tag({"hex": "elements:hexahedra", "tet": "elements:tetrahedra", "mixed": "elements:mixed_drawn"}[case["elements"]], "positions:perturbed",
             {"contiguous": "ids:contiguous_from_1", "permuted": "ids:permuted", "gaps": "ids:gaps", "from_0": "ids:from_0", "large": "ids:large"}[case["ids"]])
+    ctx.tag("coordinates:" + case.get("coord_dtype", "float64"))
     ctx.nontrivial(len(boundary) < len(nid))
     g = rng.normal(0, 1, 3) * 10 ** rng.uniform(-1, 2)
     c0 = float(rng.normal())
